@@ -6,6 +6,7 @@ import (
 	"bytes"
 	"fmt"
 	"os"
+	"path/filepath"
 	"sort"
 	"strconv"
 	"strings"
@@ -241,52 +242,108 @@ func c05Tree(c *Ctx, cs *c05Case) {
 			kept[nodes[i]] = true
 		}
 	}
-	// unlisted (all-zero) interior nodes stay linked by TrimTree; the path specification below does
-	// not describe that situation: skip such inputs (counted)
+	// the order in which TrimTree will visit the nodes (g.Nodes as graph.New left it: collected from
+	// maps, so it differs from run to run; the model is given the same order)
+	goOrder := make([][]graph.NodeInfo, len(g.Nodes))
+	for i, n := range g.Nodes {
+		goOrder[i] = orig[n]
+	}
+	// unlisted (all-zero) nodes are not in g.Nodes: TrimTree leaves them linked. The path
+	// specification asked through graph.spec does not describe that situation (the TrimTree model does)
+	hasUnlisted := false
 	for n := range orig {
 		if _, listed := before[n]; !listed {
-			c.Res.Hit("tree:skipped-unlisted-zero-node")
-			return
+			hasUnlisted = true
 		}
+	}
+	if hasUnlisted {
+		c.Res.Hit("tree:unlisted-zero-node(model-only)")
 	}
 	if pn := safely(func() { g.TrimTree(kept) }); pn != "" {
 		c.Violation("C05/tree/panic", "TrimTree panics on a tree built by graph.New: "+pn, cs)
 		return
 	}
-	R := newGTable()
+	failed := false
+	viol := func(kind, what string) {
+		c.Violation("C05/tree/"+kind, what+" ["+q.String()+" strategy="+cs.Strategy+"]", cs)
+		failed = true
+	}
+	// direct oracle on the real code: the property's own statement
+	R := newGTable()                      // nodes + every edge seen from a listed node
+	Rin, Rout := newGTable(), newGTable() // the same, In maps and Out maps separately
 	for _, n := range g.Nodes {
 		k := pathKey(orig[n])
 		if !kept[n] {
-			c.Violation("C05/tree/node-not-kept", fmt.Sprintf("entry %q is shown but was removed", n.Info.PrintableName()), cs)
+			viol("node-not-kept", fmt.Sprintf("entry %q is shown but was removed", n.Info.PrintableName()))
 			return
 		}
 		if _, dup := R.Flat[k]; dup {
-			c.Violation("C05/tree/node-twice", "a node is listed twice after TrimTree", cs)
+			viol("node-twice", "a node is listed twice after TrimTree")
 			return
 		}
-		R.Info[k] = orig[n]
-		R.Flat[k] = wd{n.Flat, n.FlatDiv, n.FlatValue()}
-		R.Cum[k] = wd{n.Cum, n.CumDiv, n.CumValue()}
+		for _, t := range []*gTable{R, Rin, Rout} {
+			t.Info[k] = orig[n]
+			t.Flat[k] = wd{n.Flat, n.FlatDiv, n.FlatValue()}
+			t.Cum[k] = wd{n.Cum, n.CumDiv, n.CumValue()}
+		}
 		if b := before[n]; b.flat != R.Flat[k] || b.cum != R.Cum[k] {
-			c.Violation("C05/tree/value-changed", fmt.Sprintf("entry %q: flat/cum changed by TrimTree", n.Info.PrintableName()), cs)
+			viol("value-changed", fmt.Sprintf("entry %q: flat/cum changed by TrimTree", n.Info.PrintableName()))
 			return
 		}
 	}
 	if len(g.Nodes) != len(kept) {
-		c.Violation("C05/tree/node-lost", fmt.Sprintf("%d entries kept, %d shown", len(kept), len(g.Nodes)), cs)
+		viol("node-lost", fmt.Sprintf("%d entries kept, %d shown", len(kept), len(g.Nodes)))
 		return
 	}
+	nres, nbypass2 := 0, 0
 	for _, n := range g.Nodes {
-		for _, em := range []graph.EdgeMap{n.In, n.Out} {
+		for vi, em := range []graph.EdgeMap{n.In, n.Out} {
 			for _, e := range em {
-				if !kept[e.Src] || !kept[e.Dest] {
-					c.Violation("C05/tree/edge-to-removed", fmt.Sprintf("edge %q -> %q refers to a removed entry", e.Src.Info.PrintableName(), e.Dest.Info.PrintableName()), cs)
+				for _, end := range []*graph.Node{e.Src, e.Dest} {
+					if _, listed := before[end]; listed && !kept[end] {
+						viol("edge-to-removed", fmt.Sprintf("edge %q -> %q refers to a removed entry", e.Src.Info.PrintableName(), e.Dest.Info.PrintableName()))
+						return
+					}
+				}
+				pa, pb := orig[e.Src], orig[e.Dest]
+				ka, kb := pathKey(pa), pathKey(pb)
+				ge := gEdge{Src: ka, Dst: kb, Wt: wd{e.Weight, e.WeightDiv, e.WeightValue()}, Residual: e.Residual}
+				if old, ok := R.Edges[ka+">"+kb]; ok && old != ge {
+					viol("in-out-disagree", fmt.Sprintf("In and Out maps disagree about the edge %q -> %q", e.Src.Info.PrintableName(), e.Dest.Info.PrintableName()))
 					return
 				}
-				ka, kb := pathKey(orig[e.Src]), pathKey(orig[e.Dest])
-				R.Edges[ka+">"+kb] = gEdge{Src: ka, Dst: kb, Wt: wd{e.Weight, e.WeightDiv, e.WeightValue()}, Residual: e.Residual}
+				R.Edges[ka+">"+kb] = ge
+				t := Rin
+				if vi == 1 {
+					t = Rout
+				}
+				t.Edges[ka+">"+kb] = ge
+				t.Info[ka], t.Info[kb] = pa, pb
+				R.Info[ka], R.Info[kb] = pa, pb
+				// the source must be an ancestor (a proper prefix of the destination's original path);
+				// residual iff it is not the original parent
+				if len(pa) >= len(pb) || pathKey(pb[:len(pa)]) != ka {
+					viol("edge-not-from-ancestor", fmt.Sprintf("edge %q -> %q: the source is not an ancestor of the destination in the untrimmed tree", R.name(ka), R.name(kb)))
+					return
+				}
+				if e.Residual != (len(pa) != len(pb)-1) {
+					viol("residual-mark", fmt.Sprintf("edge %q -> %q: residual=%v but it bypasses %d removed entries", R.name(ka), R.name(kb), e.Residual, len(pb)-1-len(pa)))
+					return
+				}
+				if e.Residual {
+					nres++
+					if len(pb)-len(pa) >= 3 {
+						nbypass2++
+					}
+				}
 			}
 		}
+	}
+	if nres > 0 {
+		c.Res.Hit("tree:has-residual-edge")
+	}
+	if nbypass2 > 0 {
+		c.Res.Hit("tree:residual-edge-over-2+-removed-levels")
 	}
 	var kp [][]graph.NodeInfo
 	for n := range kept {
@@ -298,14 +355,56 @@ func c05Tree(c *Ctx, cs *c05Case) {
 	}
 	q2 := *q
 	q2.keptPaths = kp
-	spec, perr := askTables(c, "graph.spec", &q2, nil, false, p0, cs.Profile)
-	if perr != "" {
-		c.Disagree("C05/spec-unavailable", perr, "driver op graph.spec with kept paths", cs)
+	if !hasUnlisted {
+		spec, perr := askTables(c, "graph.spec", &q2, nil, false, p0, cs.Profile)
+		if perr != "" {
+			c.Disagree("C05/spec-unavailable", perr, "driver op graph.spec with kept paths", cs)
+			return
+		}
+		c05Debug("R=%v\nspec=%v", R.Flat, spec.Flat)
+		if kind, what := diffTables(R, spec, true); kind != "" {
+			viol(kind, what)
+		}
+	}
+	// correspondence: the Lean model of TrimTree (Model/TrimTree.lean), given the same node order
+	c.Res.ModelCompared++
+	var w tw
+	w.n(len(goOrder))
+	for _, path := range goOrder {
+		w.n(len(path))
+		for _, ni := range path {
+			w.tok(infoTok(ni))
+		}
+	}
+	clean := cleanTable(p0, filepath.Clean)
+	reply := c.Drv.Ask("trim.tree " + w.String() + " " + q2.tokens(nil, false, clean, cs.Profile))
+	thm := "correspondence TrimTree.trimNewTree ~ Graph.TrimTree (theorems trimTree_*)"
+	parts := strings.Split(reply, " ;; ")
+	if len(parts) != 2 {
+		if failed {
+			return
+		}
+		c.Disagree("C05/model/tree/outcome", "Lean model of TrimTree: "+trunc(reply)+" ["+q.String()+" strategy="+cs.Strategy+"]", thm, cs)
 		return
 	}
-	c05Debug("R=%v\nspec=%v", R.Flat, spec.Flat)
-	if kind, what := diffTables(R, spec, true); kind != "" {
-		c.Violation("C05/tree/"+kind, what+" ["+q.String()+" strategy="+cs.Strategy+"]", cs)
+	for i, got := range []*gTable{Rin, Rout} {
+		view := []string{"in", "out"}[i]
+		M, err := parseLeanTables(parts[i])
+		if err != nil {
+			c.Disagree("C05/model/tree/reply", err.Error(), thm, cs)
+			return
+		}
+		if kind, what := diffTables(got, M, true); kind != "" && !failed {
+			c.Disagree("C05/model/tree/"+view+"/"+kind, "Graph.TrimTree and the Lean model differ ("+view+" maps): "+what+" ["+q.String()+" strategy="+cs.Strategy+"]", thm, cs)
+			return
+		}
+		// diffTables ignores model edges that touch no listed node: there must be none in a view
+		for k, e := range M.Edges {
+			if _, ok := got.Edges[k]; !ok && !failed {
+				c.Disagree("C05/model/tree/"+view+"/edge-missing", fmt.Sprintf("edge %q -> %q of the Lean model is not in the %s maps", M.name(e.Src), M.name(e.Dst), view), thm, cs)
+				return
+			}
+		}
 	}
 }
 
